@@ -2,7 +2,7 @@
    mutation, an abstract heap semantics for it, and an executable may-analysis
    [safe].  The programs are produced from /repo's source by
    translate/effects2v.py (coq/Gen/Effects.v); soundness is in
-   Proofs/EffectsP.v.
+   Proofs/EffectsP.v, EffectsSound.v, EffectsSound2.v.
 
    Part 1: syntax.  Part 2: the checker (executable).  Part 3: the abstract heap
    semantics (specification; an inductive relation, nothing is proved here). *)
@@ -16,11 +16,16 @@ Definition site := N.       (* allocation sites, numbered globally *)
 Definition fname := N.
 Definition field := N.     (* 0 = unknown position / any field *)
 Definition ret_var : var := 0.
+(* the reserved allocation site of immutable scalars (the translator numbers its
+   sites from 1; the checker rejects an EAlloc at this site) *)
+Definition LEAF_SITE : site := 0.
 
 (* How a value is obtained.  Only object identity matters:
    EVar y      the object bound to y (alias)
    ELoad y f   some object held by the container y (element, dict value or key,
-               attribute) in a field matching f (see [fmatch])
+               attribute) in a field matching f (see [fmatch]), or a NEW immutable
+               scalar (y[i] on an array of numbers, an element of range(n), a string
+               key: objects of the reserved site [LEAF_SITE], which nothing can modify)
    EReach ys   some object reachable in zero or more steps from one of ys (result
                of an opaque call: library function, user callback, graph view)
    EAlloc s cf shallow copy deep view
@@ -144,8 +149,12 @@ Fixpoint aenv_join (E F : aenv) : aenv :=
   end.
 
 (* abstract heap, flow-insensitive: for every allocation site the abstract objects
-   its instances may hold references to (by field), and the parameters whose
-   pre-existing buffer its instances may share (views) *)
+   its instances may hold references to (by field), the parameters whose
+   pre-existing buffer its instances may share (views), and [po]: the abstract objects
+   that a write of the analysed function may have stored INTO an object that existed
+   before the call, by field (only non-empty for functions that do modify their arguments; it
+   keeps the attribution of later writes to parameters sound: after a.append(b),
+   a[0].shape = .. modifies b) *)
 Definition fmap := list (field * aset_t).
 Fixpoint fm_match (m : fmap) (f : field) : aset_t :=
   match m with
@@ -166,17 +175,24 @@ Definition hp_match (h : list (site * fmap)) (s : site) (f : field) : aset_t := 
 Definition hp_look (h : list (site * fmap)) (s : site) (f : field) : aset_t := fm_look (hp_site h s) f.
 Record aheap := mkheap {
   hp : list (site * fmap);
-  bt : list (site * list var) }.
+  bt : list (site * list var);
+  po : fmap }.
 Fixpoint bt_look (h : list (site * list var)) (s : site) : list var :=
   match h with
   | [] => []
   | (t, v) :: h' => if t =? s then v else bt_look h' s
   end.
-(* what an abstract object may hold: pre-existing objects only hold pre-existing
-   objects as long as nobody writes them *)
+(* what an abstract object may hold: an object that existed before the call and was
+   first reached through parameter q only holds objects reachable from q, and what the
+   function itself has stored into pre-existing objects.
+   Immutable scalars (site LEAF_SITE) are not recorded in the abstract heap: every
+   object may hold them. *)
+Definition ALeaf : aobj := ASite LEAF_SITE.
+Definition noleaf (l : aset_t) : aset_t := PositiveSet.remove ALeaf l.
 Definition hpts (H : aheap) (f : field) (a : aobj) : aset_t :=
+  aunion (asingle ALeaf)
   match a with
-  | xI _ => asingle a
+  | xI _ => aunion (asingle a) (fm_match (po H) f)
   | xO p => hp_match (hp H) (Pos.pred_N p) f
   | xH => aempty
   end.
@@ -192,23 +208,30 @@ Definition taint (H : aheap) (l : aset_t) : list var :=
 Definition aload (H : aheap) (f : field) (l : aset_t) : aset_t :=
   fold_right (fun a acc => aunion (hpts H f a) acc) aempty (aelems l).
 
-(* worklist closure: every abstract object is expanded once *)
-Fixpoint areach_wl (H : aheap) (k : nat) (todo : list aobj) (acc : aset_t) : aset_t :=
-  match k with
-  | O => acc
-  | S k' =>
-    match todo with
-    | [] => acc
-    | a :: todo' =>
-      if amem a acc then areach_wl H k' todo' acc
-      else areach_wl H k' (aelems (hpts H 0 a) ++ todo') (PositiveSet.add a acc)
+(* worklist closure: every abstract object is expanded once.  [wl_iter H k] runs up to
+   2^k steps and stops as soon as the worklist is empty (the result is CHECKED below, so
+   nothing depends on the bound) *)
+Definition wl_state := (list aobj * aset_t)%type.
+Definition wl_step (H : aheap) (st : wl_state) : wl_state :=
+  match fst st with
+  | [] => st
+  | a :: todo' =>
+    if amem a (snd st) then (todo', snd st)
+    else (aelems (hpts H 0 a) ++ todo', PositiveSet.add a (snd st))
+  end.
+Fixpoint wl_iter (H : aheap) (k : nat) (st : wl_state) : wl_state :=
+  match fst st with
+  | [] => st
+  | _ :: _ =>
+    match k with
+    | O => wl_step H st
+    | S k' => wl_iter H k' (wl_iter H k' st)
     end
   end.
-Definition fm_size (m : fmap) : nat := fold_right (fun gv n => S (PositiveSet.cardinal (snd gv) + n)) O m.
-Definition hp_size (h : list (site * fmap)) : nat := fold_right (fun sm n => S (fm_size (snd sm) + n)) O h.
 Definition areach_any (H : aheap) (l : aset_t) : aset_t :=
-  let n := PositiveSet.cardinal l in
-  areach_wl H (S (hp_size (hp H) + hp_size (hp H) + n + n)) (aelems l) aempty.
+  snd (wl_iter H 40 (aelems l, aempty)).
+(* only ever run by vm_compute; conversion must not try to unfold 2^40 steps *)
+Strategy opaque [wl_iter areach_any].
 Definition aclosed (H : aheap) (r : aset_t) : bool :=
   forallb (fun a => asubset (hpts H 0 a) r) (aelems r).
 (* reflexive-transitive closure; the result is CHECKED to be closed, so that the
@@ -239,14 +262,20 @@ Fixpoint eval_expr (H : aheap) (E : aenv) (e : expr) : option aset_t :=
     match areach H (alooks E dp) with
     | None => None
     | Some rd =>
-      let need := aunion (alooks E sh) (aunion (aload H cf (alooks E cp)) rd) in
-      if asubset need (hp_look (hp H) s 0) && nsubset (taint H (alooks E vw)) (bt_look (bt H) s)
+      let need := noleaf (aunion (alooks E sh) (aunion (aload H cf (alooks E cp)) rd)) in
+      if negb (s =? LEAF_SITE) && asubset need (hp_look (hp H) s 0)
+         && nsubset (taint H (alooks E vw)) (bt_look (bt H) s)
       then Some (asingle (ASite s)) else None
     end
   end.
 
-Definition store_ok (H : aheap) (f : field) (targets vals : aset_t) : bool :=
-  forallb (fun a => match a with xO p => asubset vals (hp_look (hp H) (Pos.pred_N p) f) | _ => true end)
+Definition store_ok (H : aheap) (f : field) (targets vals0 : aset_t) : bool :=
+  let vals := noleaf vals0 in
+  forallb (fun a => match a with
+                     | xO p => (Pos.pred_N p =? LEAF_SITE) || asubset vals (hp_look (hp H) (Pos.pred_N p) f)
+                     | xI _ => asubset vals (fm_look (po H) f)
+                     | xH => true
+                     end)
           (aelems targets).
 
 Fixpoint bind_params (ps : list (var * string)) (vals : list aset_t) : option aenv :=
@@ -344,15 +373,21 @@ Fixpoint infer_expr (H : aheap) (E : aenv) (e : expr) : aheap * aset_t :=
   | ELoad y f => (H, aload H f (alook E y))
   | EReach ys => (H, areach_any H (alooks E ys))
   | EAlloc s cf sh cp dp vw =>
-    let need := aunion (alooks E sh) (aunion (aload H cf (alooks E cp)) (areach_any H (alooks E dp))) in
+    let need := noleaf (aunion (alooks E sh) (aunion (aload H cf (alooks E cp)) (areach_any H (alooks E dp)))) in
     let tv := taint H (alooks E vw) in
     (mkheap (if aisempty need then hp H else hp_add (hp H) s 0 need)
-            (match tv with [] => bt H | _ => bt_add (bt H) s tv end), asingle (ASite s))
+            (match tv with [] => bt H | _ => bt_add (bt H) s tv end) (po H), asingle (ASite s))
   end.
 
-Definition infer_store (H : aheap) (f : field) (targets vals : aset_t) : aheap :=
+Definition infer_store (H : aheap) (f : field) (targets vals0 : aset_t) : aheap :=
+  let vals := noleaf vals0 in
   if aisempty vals then H else
-  fold_left (fun H a => match a with xO p => mkheap (hp_add (hp H) (Pos.pred_N p) f vals) (bt H) | _ => H end)
+  fold_left (fun H a => match a with
+                        | xO p => if Pos.pred_N p =? LEAF_SITE then H
+                                  else mkheap (hp_add (hp H) (Pos.pred_N p) f vals) (bt H) (po H)
+                        | xI _ => mkheap (hp H) (bt H) (fm_add (po H) f vals)
+                        | xH => H
+                        end)
             (aelems targets) H.
 
 Fixpoint infer_loop (f : aheap -> aenv -> aheap * aenv) (k : nat) (H : aheap) (E : aenv) : aheap * aenv :=
@@ -390,9 +425,12 @@ Fixpoint infer (p : program) (depth : nat) : stmt -> aheap -> aenv -> aheap * ae
       end
   end.
 
+Definition fm_size (m : fmap) : nat := fold_right (fun gv n => S (PositiveSet.cardinal (snd gv) + n)) O m.
+Definition hp_size (h : list (site * fmap)) : nat := fold_right (fun sm n => S (fm_size (snd sm) + n)) O h.
 Definition heap_size (H : aheap) : nat :=
   (hp_size (hp H)
-   + fold_right (fun sv n => List.length (snd sv) + n) 0 (bt H) + List.length (bt H))%nat.
+   + fold_right (fun sv n => List.length (snd sv) + n) 0 (bt H) + List.length (bt H)
+   + fm_size (po H))%nat.
 
 Fixpoint infer_fix (p : program) (depth : nat) (body : stmt) (E0 : aenv) (k : nat) (H : aheap) : aheap :=
   match k with
@@ -410,7 +448,7 @@ Definition entry_env (fd : fundef) : aenv :=
 
 Definition analyse (p : program) (fd : fundef) : option viol :=
   let E0 := entry_env fd in
-  let H := infer_fix p DEPTH (fn_body fd) E0 HEAPFUEL (mkheap [] []) in
+  let H := infer_fix p DEPTH (fn_body fd) E0 HEAPFUEL (mkheap [] [] []) in
   match chk p H DEPTH (fn_body fd) E0 with
   | Some (_, v) => Some v
   | None => None
@@ -449,6 +487,75 @@ Definition mutated_params (p : program) (fd : fundef) : option (list string) :=
   | Some v => Some (map (pname (fn_params fd)) (dedup (map snd v)))
   | None => None
   end.
+
+(* diagnostics of the MODEL (not of EoN): uses of a variable at a point where its
+   abstract value is empty.  The abstract value over-approximates, so such a variable is
+   unbound there in every execution: the semantics has no rule, every execution stops
+   there and the soundness theorem says nothing about what follows.  A hit means that
+   the translation (or the semantics) does not cover the code after that point -- e.g.
+   before loads could yield scalars, the body of every  for i in range(n)  was such dead
+   code.  Own body only (callees are reported on their own); (line or 0, variable). *)
+Definition emp_vars (E : aenv) (xs : list var) : list var := filter (fun x => aisempty (alook E x)) xs.
+Definition dead_expr (E : aenv) (e : expr) : list var :=
+  match e with
+  | EVar y => emp_vars E [y]
+  | ELoad y _ => emp_vars E [y]
+  | EReach ys => if forallb (fun y => aisempty (alook E y)) ys then ys else []
+  | EAlloc _ _ _ _ _ _ => []
+  | EChoice _ _ => []
+  end.
+Fixpoint dead (p : program) (H : aheap) (depth : nat) : stmt -> aenv -> option (aenv * viol) :=
+  match depth with
+  | O => fun _ _ => None
+  | S d =>
+    fix go (s : stmt) (E : aenv) {struct s} : option (aenv * viol) :=
+      match s with
+      | SSkip => Some (E, [])
+      | SAssign x e =>
+        match eval_expr H E e with
+        | Some v => Some (aset E x v, map (fun y => (0, y)) (dead_expr E e))
+        | None => None
+        end
+      | SWrite ln x f ys => Some (E, map (fun y => (ln, y)) (emp_vars E [x]))
+      | SSeq a b =>
+        match go a E with
+        | Some (E1, v1) =>
+          match go b E1 with Some (E2, v2) => Some (E2, v1 ++ v2) | None => None end
+        | None => None
+        end
+      | SIf a b =>
+        match go a E, go b E with
+        | Some (E1, v1), Some (E2, v2) => Some (aenv_join E1 E2, v1 ++ v2)
+        | _, _ => None
+        end
+      | SLoop b =>
+        match loop_inv (go b) LOOPFUEL E with
+        | Some (Ei, v) => if aenv_leq E Ei then Some (Ei, v) else None
+        | None => None
+        end
+      | SCall x f args =>
+        match find_fun p f with
+        | Some fd =>
+          match bind_params (fn_params fd) (map (alook E) args) with
+          | Some E0 =>
+            match dead p H d (fn_body fd) E0 with
+            | Some (E1, _) => Some (aset E x (alook E1 ret_var), map (fun y => (0, y)) (emp_vars E args))
+            | None => None
+            end
+          | None => None
+          end
+        | None => None
+        end
+      end
+  end.
+Definition dead_uses (p : program) (fd : fundef) : option viol :=
+  let E0 := entry_env fd in
+  let H := infer_fix p DEPTH (fn_body fd) E0 HEAPFUEL (mkheap [] [] []) in
+  match dead p H DEPTH (fn_body fd) E0 with
+  | Some (_, v) => Some v
+  | None => None
+  end.
+Definition dead_report (p : program) (fds : list fundef) := map (fun fd => (fn_name fd, dead_uses p fd)) fds.
 
 Definition entry_points (p : program) : list fundef := filter fn_entry p.
 Definition unsafe_entry_points (p : program) : list (string * option (list string)) :=
@@ -511,6 +618,9 @@ Inductive eval (h : heap) (e : env) : expr -> heap -> loc -> Prop :=
 | ev_var y l : e y = Some l -> eval h e (EVar y) h l
 | ev_load y f l0 g l : e y = Some l0 -> kids h l0 g l -> fmatch f g = true ->
     eval h e (ELoad y f) h l
+| ev_load_leaf y f l0 h' l : e y = Some l0 ->
+    alloc_rel h h' l LEAF_SITE -> base h' l = l -> (forall g k, ~ kids h' l g k) ->
+    eval h e (ELoad y f) h' l
 | ev_reach ys y l0 l : In y ys -> e y = Some l0 -> reach h l0 l -> eval h e (EReach ys) h l
 | ev_alloc s cf sh cp dp vw h' l :
     alloc_rel h h' l s ->
@@ -524,7 +634,9 @@ Inductive eval (h : heap) (e : env) : expr -> heap -> loc -> Prop :=
 | ev_choice_r a b h' l : eval h e b h' l -> eval h e (EChoice a b) h' l.
 
 (* in-place modification of l: afterwards l may hold its old references and
-   references to the objects of ys; nothing else changes *)
+   references to the objects of ys; nothing else changes.  (Objects of the site
+   LEAF_SITE are immutable scalars: [ex_write] has no rule for them, as Python has no
+   in-place operation on an int, a float or a string.) *)
 Definition write_rel (h h' : heap) (e : env) (l : loc) (f : field) (ys : list var) : Prop :=
   next h' = next h /\
   (forall m, site_of h' m = site_of h m) /\
@@ -554,6 +666,7 @@ Inductive exec (p : program) : stmt -> state -> outcome -> state -> Prop :=
     exec p (SAssign x e) st Normal (mkst (upd (st_env st) x (Some l)) h' (st_log st))
 | ex_write ln x f ys st l h' :
     st_env st x = Some l ->
+    site_of (st_heap st) l <> LEAF_SITE ->
     write_rel (st_heap st) h' (st_env st) l f ys ->
     exec p (SWrite ln x f ys) st Normal (mkst (st_env st) h' (base (st_heap st) l :: st_log st))
 | ex_seq a b st st1 o st2 :
